@@ -159,7 +159,7 @@ def gen_and_expect(rng, bpc, nops):
             hd.pos += n
             emit(["write", h, data.hex()], ("ok", n))
         elif r < 0.86 and hd.writing:
-            arg = rng.choice([None, 0, bpc, bpc - 1, 2 * bpc + 1, max(0, size - 1), size + bpc + 3])
+            arg = rng.choice([None, 0, bpc, bpc - 1, 2 * bpc + 1, max(0, size - 1), size + bpc + 3, hd.pos, (hd.pos // bpc) * bpc, size + 2 * bpc + 1])
             new = hd.pos if arg is None else arg
             if new < size:
                 del hd.f.data[new:]
